@@ -228,7 +228,7 @@ neither like a number nor like `#b…`/`#x…` -/
 def pnameOK (n : String) : Bool :=
   match n.toList with
   | [] => false
-  | c :: _ => !isDigit c && c != '#' && c != '-' && c != '+' && c != '.'
+  | c :: _ => !isDigit c && c != '#'
 
 /-- the formula manager knows only symbols of the name ↦ symbol assignment `ρ` (so that `Symbol(name, type)` never
 clashes: one name, one sort — what `FormulaManager` guarantees for every formula it holds) -/
